@@ -463,3 +463,18 @@ Definition implicit_roots_ok (M : smodel) : bool :=
   (str_eqb (m_query M) (s "Query")
    && option_eqb str_eqb (m_mutation M) (if has (s "Mutation") then Some (s "Mutation") else None)
    && option_eqb str_eqb (m_subscription M) (if has (s "Subscription") then Some (s "Subscription") else None)).
+
+(** root type names are ordinary type names *)
+Definition plain_name (n : str) : bool := negb (is_meta_name n) && negb (is_builtin_scalar n).
+Definition roots_ok (M : smodel) : bool :=
+  plain_name (m_query M)
+  && (match m_mutation M with Some x => plain_name x | None => true end)
+  && (match m_subscription M with Some x => plain_name x | None => true end).
+(** a schema description needs a schema definition to be written down in SDL *)
+Definition desc_ok (M : smodel) : bool :=
+  m_explicit M || (match m_desc M with None => true | Some _ => false end).
+Definition model_ok (M : smodel) : bool :=
+  names_ok M && no_shadow_root M && implicit_roots_ok M && roots_ok M && desc_ok M.
+(** schema definitions of a parsed document carry a real (non built-in) position *)
+Definition parsed_positions (D : tsdoc) : Prop := Forall (fun sd => pbuiltin (sd_pos sd) = false) (schema_defs D).
+Definition parsed_positions_b (D : tsdoc) : bool := forallb (fun sd => negb (pbuiltin (sd_pos sd))) (schema_defs D).
